@@ -9,7 +9,7 @@
 (* `xform_lerp` (Transform interpolation).                                 *)
 (***************************************************************************)
 EXTENDS VekLerp, TLC, Json, IOUtils
-Rec == ndJsonDeserialize(IOEnv.TRACE)
+Rec == DecodeTrace(ndJsonDeserialize(IOEnv.TRACE))
 VARIABLE l
 
 MapProgress(mapper, p) == CASE mapper = "id" -> p [] mapper = "sq" -> FMul(p, p) [] mapper = "one_minus" -> FSub(F1, p)
